@@ -461,6 +461,91 @@ def rule_scc6(prog):
     return r
 
 
+def _fresh_expr(e):
+    """an expression whose value is a new object nobody else holds"""
+    if isinstance(e, (ast.List, ast.Tuple, ast.Set, ast.ListComp, ast.SetComp,
+                      ast.Constant)):
+        return True
+    if isinstance(e, ast.Call) and isinstance(e.func, ast.Name) and \
+            e.func.id in ('list', 'tuple', 'set', 'frozenset', 'sorted'):
+        return True
+    return False
+
+
+def rule_scc7(prog):
+    """ownership of a yielded component: compute_SCCs is a generator; the
+    list it hands out belongs to the caller from the `yield` on.  If the
+    generator reads it after being resumed, what the caller did to it in
+    between (clear / pop / sort / extend) changes the rest of the
+    enumeration."""
+    r = RuleResult('R-SCC-7', 'a yielded component is not used by the '
+                   'generator after the yield')
+    f = prog.func('graph.compute_SCCs')
+    from ..flow import use_after, simple_aliases, _blocks_of
+    ys = []
+
+    def stmts(block):
+        for s in block:
+            yield s
+            if isinstance(s, (ast.FunctionDef, ast.ClassDef)):
+                continue
+            for fld in ('body', 'orelse', 'finalbody'):
+                b = getattr(s, fld, None)
+                if isinstance(b, list) and b and isinstance(b[0], ast.stmt):
+                    for x in stmts(b):
+                        yield x
+            for h in getattr(s, 'handlers', []) or []:
+                for x in stmts(h.body):
+                    yield x
+    for s in stmts(f.node.body):
+        if any(True for _ in _blocks_of(s)):
+            continue            # compound: its simple statements follow
+        own = [n for n in ast.walk(s) if isinstance(n, (ast.Yield,
+                                                        ast.YieldFrom))]
+        for y in own:
+            ys.append((s, y))
+    if not ys:
+        raise Inconclusive('R-SCC-7', 'compute_SCCs yields nothing: not a '
+                           'generator any more', f.where())
+    for (s, y) in ys:
+        where = '%s:%d' % (f.module.relpath, y.lineno)
+        v = y.value
+        if isinstance(y, ast.YieldFrom) or v is None:
+            raise Inconclusive('R-SCC-7', 'yield form `%s`' % ast.unparse(y),
+                               where)
+        if _fresh_expr(v):
+            r.inst(yield_=ast.unparse(y), yielded='fresh object')
+            r.ok()
+            continue
+        if not isinstance(v, ast.Name):
+            raise Inconclusive('R-SCC-7', 'yielded expression `%s` is '
+                               'neither a local name nor a fresh object' %
+                               ast.unparse(v), where)
+        names = sorted(simple_aliases(f.node, v.id))
+        use = None
+        for nm in names:
+            u = use_after(f.node, s, nm)
+            if u is not None:
+                use = (nm, u)
+                break
+        r.inst(yield_=ast.unparse(y), names=names,
+               used_after=('%s at line %d' % (use[0], use[1].lineno))
+               if use else None)
+        if use:
+            r.fail(Finding(
+                PROP, 'R-SCC-7', '%s:%d' % (f.module.relpath, use[1].lineno),
+                f.short(), 'use-after-yield:%s' % v.id,
+                'the component yielded at line %d (`%s`) is used again by '
+                'the generator at line %d after it has been handed to the '
+                'caller: a caller that edits the list between two steps of '
+                'the generator changes the bookkeeping (closed set / stack) '
+                'and later components come out merged or are lost' % (
+                    y.lineno, ast.unparse(y), use[1].lineno)))
+        else:
+            r.ok()
+    return r
+
+
 def rule_scc5(prog):
     r = RuleResult('R-SCC-5', 'compute_SCCs does not modify its argument')
     f = prog.func('graph.compute_SCCs')
@@ -480,7 +565,25 @@ def rule_scc5(prog):
 def run(prog, tier, seed):
     T = Attempts()
     results = T.results(T(rule_scc, prog), T(rule_scc6, prog),
-                        T(rule_scc5, prog))
+                        T(rule_scc5, prog), T(rule_scc7, prog))
+    # "for every directed graph G": compute_SCCs reads G through nodes() /
+    # next(); a DiGraph whose mutators leave an edge to an unregistered node
+    # has nodes that are in no component
+    from . import c13
+    from ..report import adopt
+    adj = T(c13.adjacency_field, prog)
+    if adj:
+        results = results + adopt(T.results(T(c13.rule_g0, prog, adj)), PROP,
+                                  'the graphs compute_SCCs is given')
+
+    def _opaque_nodes(prog):
+        from . import c06
+        r = c06.rule_opq1(prog)
+        r.findings = [f for f in r.findings
+                      if f.where.startswith(prog.module('graph').relpath)]
+        return r
+    results = results + adopt(T.results(T(_opaque_nodes, prog)), PROP,
+                              'nodes are arbitrary hashable objects')
     expl = ('PARTIAL. The post-order step of compute_SCCs (the block run '
             'when the successors of the top of the DFS stack are exhausted) '
             'is interpreted abstractly on symbolic bookkeeping state; the '
